@@ -55,6 +55,23 @@ class GetData(Contract):
         cls = getattr(importlib.import_module(DEP + self.module), self.klass)
         return cls(url="http://localhost/graphql")
 
+    def native_args(self, inputs):
+        return [inputs["response"]], {}
+
+    def samples(self, tier):
+        e = lambda m, **k: dict(message=m, **k)      # noqa: E731
+        bodies = [{"data": {"a": 1}}, {"data": None}, {"data": {}}, {"errors": []}, {"data": {"a": 1}, "errors": []}, {"data": {"a": 1}, "errors": None},
+                  {"errors": [e("boom")]}, {"data": {"partial": 1}, "errors": [e("boom", path=["a", 0], locations=[{"line": 1, "column": 2}])]},
+                  {"errors": [e("same", path=["a"]), e("same", path=["b"]), e("same", path=["a"])]},
+                  {"data": None, "errors": [e("x", extensions={"code": "C"}), e("y")]}, {}, {"other": 1}, [], [1], "text", 1, None, True]
+        out = []
+        for status in (200, 201, 204, 299, 199, 300, 301, 400, 404, 500, 503):
+            for b in bodies if status in (200, 201, 404) else bodies[:2] + bodies[7:9]:
+                out.append(dict(response=H._build_response(status, 0, b)))
+            out.append(dict(response=H._build_response(status, 1, None)))
+            out.append(dict(response=H._build_response(status, 2, None)))
+        return out
+
     # decision table of the statement ------------------------------------------------------
     def _classes(self, A):
         r = A.response
